@@ -109,7 +109,7 @@ PROPS = {
         "theorems": [
             "adapt_refines_schedStep", "new_eq_schedNew", "new_start_values",
             "step_after_warmup", "step_final_window", "step_mass_phase", "transformation_frozen", "transformation_frozen_run",
-            "stepsize_frozen_after_warmup", "last_uses_average", "tuning_step", "tuning_flag_exact",
+            "stepsize_frozen_after_warmup", "stepsize_frozen_run", "last_uses_average", "tuning_step", "tuning_flag_exact",
             "any_num_tune_constructs", "nextWindow_grows",
             "Flow.tuning_flag_exact", "Flow.tuning_flag_exact_from_start", "Flow.transformation_frozen", "Flow.update_iff",
             "Flow.post_warmup_actions", "Flow.last_warmup_uses_average", "Flow.estimator_choice",
